@@ -58,6 +58,9 @@ type EpochBitmapConfig struct {
 	GracePeriod  uint64 // Epochs before expiration (default: 1)
 }
 
+// maxGracePeriod is the largest grace period the 2-bit generation tags can express.
+const maxGracePeriod = 2
+
 // NewEpochBitmapAllocator creates a new epoch-based bitmap allocator.
 func NewEpochBitmapAllocator(config EpochBitmapConfig) (*EpochBitmapAllocator, error) {
 	_, ipNet, err := net.ParseCIDR(config.BaseNetwork)
@@ -67,6 +70,12 @@ func NewEpochBitmapAllocator(config EpochBitmapConfig) (*EpochBitmapAllocator, e
 
 	// Calculate total IPs
 	ones, bits := ipNet.Mask.Size()
+
+	// The index <-> address arithmetic below is IPv4 only (32-bit mask): with a
+	// wider mask the pool size 1 << (PrefixLength - ones) can overflow to 0
+	if bits != 32 || ipNet.IP.To4() == nil {
+		return nil, fmt.Errorf("epoch allocator supports IPv4 pools only, got %s", config.BaseNetwork)
+	}
 	if config.PrefixLength < ones || config.PrefixLength > bits {
 		return nil, fmt.Errorf("prefix length %d out of range [%d, %d]", config.PrefixLength, ones, bits)
 	}
@@ -79,6 +88,11 @@ func NewEpochBitmapAllocator(config EpochBitmapConfig) (*EpochBitmapAllocator, e
 	gracePeriod := config.GracePeriod
 	if gracePeriod == 0 {
 		gracePeriod = 1 // Default: 1 epoch grace period
+	}
+	// A lease is checked at every epoch advance, so its age never exceeds
+	// gracePeriod+1; a 2-bit generation tells the ages 0..3 apart.
+	if gracePeriod > maxGracePeriod {
+		return nil, fmt.Errorf("grace period %d not supported (2-bit generations allow at most %d)", gracePeriod, maxGracePeriod)
 	}
 
 	return &EpochBitmapAllocator{
@@ -108,8 +122,9 @@ func (a *EpochBitmapAllocator) Allocate(ctx context.Context, subscriberID string
 		return a.indexToIP(idx), nil
 	}
 
-	// Find a free slot
-	threshold := a.freeThreshold()
+	// Find a free slot. A slot is free exactly when nobody holds it: expired
+	// leases are dropped by AdvanceEpoch, so the reverse map is authoritative.
+	// (The generation tag of an unheld slot says nothing: it wraps every 4 epochs.)
 
 	// Start from hint for faster allocation
 	for i := uint64(0); i < a.totalIPs; i++ {
@@ -120,8 +135,7 @@ func (a *EpochBitmapAllocator) Allocate(ctx context.Context, subscriberID string
 			continue
 		}
 
-		gen := a.getGeneration(idx)
-		if a.isGenerationFree(gen, threshold) {
+		if _, held := a.ipToSubscriber[idx]; !held {
 			// Found free slot - allocate it
 			a.setGeneration(idx, a.currentGeneration())
 			a.subscribers[subscriberID] = idx
@@ -236,6 +250,9 @@ func (a *EpochBitmapAllocator) AdvanceEpoch() uint64 {
 		if a.isGenerationFree(gen, threshold) {
 			delete(a.subscribers, subscriberID)
 			delete(a.ipToSubscriber, idx)
+			if idx < a.nextFreeHint {
+				a.nextFreeHint = idx
+			}
 		}
 	}
 
@@ -254,17 +271,14 @@ func (a *EpochBitmapAllocator) Stats() (allocated, total uint64, utilization flo
 	a.mu.RLock()
 	defer a.mu.RUnlock()
 
-	// Count active allocations (not expired)
-	threshold := a.freeThreshold()
-	active := uint64(0)
-	for idx := uint64(1); idx < a.totalIPs-1; idx++ {
-		gen := a.getGeneration(idx)
-		if !a.isGenerationFree(gen, threshold) {
-			active++
-		}
-	}
+	// Active allocations: expired leases are dropped by AdvanceEpoch, so every
+	// entry of the subscriber table is a live lease
+	active := uint64(len(a.subscribers))
 
 	// Total usable IPs (excluding network and broadcast)
+	if a.totalIPs <= 2 {
+		return active, 0, 0
+	}
 	usable := a.totalIPs - 2
 
 	return active, usable, float64(active) / float64(usable)
